@@ -23,7 +23,9 @@ SKIP_CATS = ('metadata', 'Simulation Metadata')
 
 def num_equal(a, b):
     if a is None or b is None:
-        return a is None and b is None
+        # the client has no representation for a printed 'nan' other than None: both mean "no number"
+        other = b if a is None else a
+        return other is None or (isinstance(other, float) and math.isnan(other))
     if isinstance(a, float) and math.isnan(a):
         return isinstance(b, float) and math.isnan(b)
     return float(a) == float(b)
